@@ -12,6 +12,7 @@ pub mod h_swar;
 pub mod h_float_tok;
 pub mod h_special;
 pub mod h_bound;
+pub mod h_options;
 pub mod h_special_write;
 #[cfg(any(feature = "compact", feature = "radix"))]
 pub mod h_bellerophon;
@@ -47,6 +48,7 @@ pub fn all_harnesses() -> Vec<Harness> {
     v.extend_from_slice(h_float_tok::HARNESSES);
     v.extend_from_slice(h_special::HARNESSES);
     v.extend_from_slice(h_bound::HARNESSES);
+    v.extend_from_slice(h_options::HARNESSES);
     #[cfg(not(feature = "compact"))]
     v.extend_from_slice(h_bound::emit::HARNESSES);
     v.extend_from_slice(h_special_write::HARNESSES);
